@@ -252,6 +252,7 @@ NormOp(op) ==
     CASE n = "xbc" -> <<"bc", op[2], op[3]>>
       [] n = "xeev" -> <<"eev", op[2], op[3], op[4]>>
       [] n = "xsysev" -> <<"sysev", op[2], op[3]>>
+      [] n = "xres" -> <<"res", op[2]>>
       [] n = "smut" -> <<"mut", op[2], op[3], op[4]>>
       [] n = "sset" -> <<"set", op[2], op[3], op[4]>>
       [] n = "sno" -> <<"noreact", op[2], op[3], op[4]>>
@@ -468,7 +469,9 @@ OnSched(m, o) ==
     THEN
         LET idx == FirstIdx(m.pendDesp, LAMBDA x : x.e = o.ent)
             m1 == Chk(m0, t.f = "poll", "C08", "despawn reaction scheduled outside a poll")
-            m2 == IF idx = 0 THEN V(m1, "C08", "despawn reaction for an entity that is alive or was already reported")
+            m2 == IF idx = 0
+                  THEN LET v1 == V(m1, "C08", "despawn reaction for an entity that is alive or was already reported")
+                       IN IF m.anyrev THEN V(v1, "C06", "after a revocation, a despawn reaction was scheduled for an entity that is alive (revocation is not local)") ELSE v1
                   ELSE [m1 EXCEPT !.pendDesp = RemoveAt(@, idx)]
             m3 == PolledSurplus(Chk(m2, BagEqAlive(m, o.reactors, want), "C08", "despawn reactors scheduled do not match the registrations"), o, want)
             taken == SelectSeq(m.reg, LAMBDA x : x.kd = "desp" /\ x.e = o.ent)
@@ -678,7 +681,9 @@ OnGc(m, o) ==
         m1 == FoldSeq(step, m, o.d)
         \* what was already doomed when the collection started must be gone now; what the collection itself doomed (by
         \* despawning an entity that carried the last handle / signal) may be collected now or by the next collection
-        m2 == Chk(m1, (m.doomed \cap m.alive) \cap m1.alive = {}, "C07", "garbage collection missed a reactor whose last trigger is gone")
+        m2a == Chk(m1, (m.doomed \cap m.alive) \cap m1.alive = {}, "C07", "garbage collection missed a reactor whose last trigger is gone")
+        m2 == IF (m.doomed \cap m.alive) \cap m1.alive \cap m.once # {}
+              THEN V(m2a, "C15", "a one-off reactor without triggers (revoked before firing, or empty bundle) was not dropped") ELSE m2a
         m3 == Chk(m2, o.closed = 1, "C18", "garbage collection did not complete")
         m4 == Chk(m3, (m.doomedE \cap m.aliveE) \cap m3.aliveE = {}, "C08", "garbage collection missed an entity whose last signal was released")
     IN [m4 EXCEPT !.doomed = @ \cap m4.alive, !.doomedE = @ \cap m4.aliveE]
